@@ -5,6 +5,7 @@
 import SifVerif.Proofs.CreateWF
 import SifVerif.Proofs.Placed
 import SifVerif.Proofs.Refine
+import SifVerif.Proofs.Primary
 namespace Sif.C02
 
 variable (sha : Bytes → Bytes) (ph : Bytes → Option Bytes)
@@ -217,5 +218,82 @@ theorem C02_spec_rejected (a : AImg) (op : Op) (now : Int) (h : (a.step sha ph o
     repeat' split
     all_goals first | rfl | (exfalso; simp_all)
   | reload => rfl
+
+/-! ### the primary-partition clause -/
+
+/-- **In the reference model**: "at most one primary system partition exists and the image's
+    architecture is that partition's (unknown if none)" (`AImg.PrimInv`) is preserved by every
+    operation that does not write partition metadata as raw bytes (`Op.partClean`: an added
+    partition is described through the partition option; set-metadata is not aimed at a partition). -/
+theorem C02_primary_spec (a : AImg) (H : a.PrimInv) (op : Op) (now : Int) (hc : Op.partClean a op) :
+    (a.step sha ph op now).1.PrimInv := spec_step_prim sha ph a H op now hc
+
+/-- … **hence on every handle**, by refinement -/
+theorem C02_primary (s : Img) (W : WF s) (P : Placed s) (R : Ranges s) (op : Op) (now : Int)
+    (H : (abs s).PrimInv) (hc : Op.partClean (abs s) op)
+    (hout : (step sha ph s op now).2.outsideSpec = false) :
+    (abs (step sha ph s op now).1).PrimInv := by
+  rw [(C02_refine sha ph s W P R op now hout).2]
+  exact spec_step_prim sha ph (abs s) H op now hc
+
+/-- … and along every history of such operations, from any well-formed image that satisfies it
+    (a freshly created empty image does: `C02_primary_empty`) -/
+theorem C02_primary_history (s : Img) (ops : List (Op × Int)) (W : WF s) (P : Placed s)
+    (hR : ∀ k, Ranges (runOps sha ph s (ops.take k)))
+    (hout : ∀ k op now, ops[k]? = some (op, now) →
+      (step sha ph (runOps sha ph s (ops.take k)) op now).2.outsideSpec = false)
+    (H : (abs s).PrimInv)
+    (hc : ∀ k op now, ops[k]? = some (op, now) →
+      Op.partClean (abs (runOps sha ph s (ops.take k))) op) :
+    (abs (runOps sha ph s ops)).PrimInv := by
+  induction ops generalizing s with
+  | nil => exact H
+  | cons x rest ih =>
+    obtain ⟨op, now⟩ := x
+    have R0 : Ranges s := by simpa [runOps] using hR 0
+    have hout0 := hout 0 op now (by simp)
+    simp only [List.take_zero, runOps] at hout0
+    have hc0 := hc 0 op now (by simp)
+    simp only [List.take_zero, runOps] at hc0
+    have hio0 : (step sha ph s op now).2 ≠ .err .io := by
+      intro h; rw [h] at hout0; simp [Res.outsideSpec] at hout0
+    simp only [runOps]
+    apply ih (step sha ph s op now).1 (WF_step sha ph s W R0 op now hio0)
+      (Placed_step sha ph s W P R0 op now hio0)
+    · intro k; simpa [runOps] using hR (k + 1)
+    · intro k op' now' hk
+      simpa [runOps] using hout (k + 1) op' now' (by simpa using hk)
+    · exact C02_primary sha ph s W P R0 op now H hc0 hout0
+    · intro k op' now' hk
+      simpa [runOps] using hc (k + 1) op' now' (by simpa using hk)
+
+/-- an image without objects whose architecture is `unknown` satisfies the clause -/
+theorem C02_primary_empty (s : Img) (h : ∀ d ∈ s.rds, d.used = false) (ha : s.h.arch = archUnknown) :
+    (abs s).PrimInv := by
+  apply PrimInv_of_no_objects
+  · intro i o hi
+    have hs : (abs s).slots = s.rds.map (absSlot s.st) := rfl
+    rw [hs, List.getElem?_map] at hi
+    cases hd : s.rds[i]? with
+    | none => rw [hd] at hi; cases hi
+    | some d =>
+      rw [hd] at hi
+      simp only [Option.map_some, Option.some.injEq] at hi
+      unfold absSlot at hi
+      rw [h d (List.mem_of_getElem? hd)] at hi
+      cases hi
+  · exact ha
+
+/-- finding D7, in the reference model: set-metadata with raw bytes that encode a primary
+    partition, aimed at a system partition next to the primary one, leaves two primary partitions -/
+theorem C02_D7_witness :
+    let mk : Nat → Int → Bytes → Option AObj := fun id pt ar =>
+      some { d := { zeroDesc with used := true, id := id, dtype := dtPartition, extra := pad 384 (encPartition 1 pt ar) }, content := [] }
+    let a : AImg := { launch := [], arch := [48, 49, 0], id := [], ctime := 0, mtime := 0,
+                      slots := [mk 1 partSystem [48, 50, 0], mk 2 partPrimSys [48, 49, 0]] }
+    let a' := (a.step (fun _ => []) (fun _ => none)
+      (.setMeta 1 (.raw (encPartition 1 partPrimSys [48, 50, 0])) .det) 0).1
+    (a'.slots.filterMap (fun o => o)).map AImg.isPrimary = [true, true] := by
+  decide
 
 end Sif.C02
